@@ -217,7 +217,8 @@ def req_step(c, x):
         else:
             m, err = ref.mon_issue(m, kind, num)
             c.issued = (kind, ndig, num)
-            ncmd, kind, ndig, num = ncmd + 1, None, 0, 0
+            # (streams of unbounded length: the count is not part of the state, otherwise the graph could not close)
+            ncmd, kind, ndig, num = (ncmd + 1 if c.d['ncmd'] is not None else 0), None, 0, 0
     elif x:
         off = x
     if err is None:
@@ -455,9 +456,9 @@ def run_resp(d):
     if ex.sample_traces:
         res['samples'].append({'config': d, 'inputs(start_resp,ready,vin,size) per cycle': ex.sample_traces[-1]})
     if not ex.violations and ex.closed:
-        want = 1 + 8 * len(VINS_T if d['grid'] == 'T' else VINS_Q)
-        if len(stats['responses'] | {(d['vin'], d['size'])}) != want - (1 if True else 0) and len(stats['responses']) < want - 1:
-            raise core.HarnessError('response shard %r started only %d distinct responses' % (d, len(stats['responses'])))
+        want = 8 * len(VINS_T if d['grid'] == 'T' else VINS_Q)
+        if len(stats['responses']) != want:
+            raise core.HarnessError('response shard %r started %d distinct responses, grid has %d' % (d, len(stats['responses']), want))
     return res
 
 
